@@ -39,3 +39,5 @@ def _(self, p, action):
 
 
 prop("C06", fucs=["liquer.context.Context.evaluate_parameter@failure"])
+# C01: every occurrence of a link argument is evaluated (once) in its own place - never replaced by a value computed elsewhere
+prop("C01", fucs=["liquer.context.Context.evaluate_parameter@failure"])
